@@ -491,6 +491,9 @@ func (w *World) admissible(tx sdk.Tx, proposer string, height int64, inBlock boo
 }
 
 func (w *World) admissibleInner(tx sdk.Tx, proposer string, height int64, inBlock bool, first bool) (bool, string) {
+	if w.decodedBad[tx] {
+		return false, "signature does not verify"
+	}
 	st, ok := tx.(interface {
 		sdk.TxWithMemo
 		sdk.TxWithTimeoutHeight
